@@ -93,7 +93,8 @@ pub fn gen_f0_track(t: &mut Tape, rate: usize, nframes: usize, allow_unvoiced: b
             } else if t.chance(0.04) {
                 // outside the limits: must behave like the limit
                 // (above 20 kHz only where that is still below rate/2)
-                Some(if rate < 40000 || t.chance(0.5) { lo - t.uniform(0.1, 3.0) } else { 20000f64.ln() + t.uniform(0.1, 2.0) })
+                // (far below the lower limit the log-F0 is NEGATIVE - 1 Hz is 0.0 - and still means 20 Hz)
+                Some(if rate < 40000 || t.chance(0.5) { lo - if t.chance(0.5) { t.uniform(0.1, 3.0) } else { *t.pick(&[3.5, 5.0, 2.9957322735539909, 40.0, 1e6]) } } else { 20000f64.ln() + t.uniform(0.1, 2.0) })
             } else {
                 Some(cur)
             }
